@@ -380,8 +380,8 @@ class RandSchema:
         else:
             cap = min(maxcap, self.rng.choice(CAP_BIAS) if self.rng.random() < 0.8 else self.rng.randint(1, 40))
         cap = max(1, min(cap, 65535))
-        art = {"k": "array", "ext": ext, "cap": cap, "elem": rt}
         ate = {"k": "array", "elem": te, "cap": self.cap_expr(cap, file), "ext": ext}
+        art = {"k": "array", "ext": ext, "cap": cap, "elem": rt, "_texpr": ate}
         return ate, art, steer_nbits(art)
 
     def gen_field_type(self, depth, budget, body, file):
@@ -462,7 +462,7 @@ class RandSchema:
             fields.append({"num": nums[i], "name": fname, "t": rt})
             used += nb
         decl = {"d": "message", "name": name, "ext": ext, "body": mybody}
-        rt = {"k": "msg", "name": name, "ext": ext, "fields": fields}
+        rt = {"k": "msg", "name": name, "ext": ext, "fields": fields, "_decl": decl}
         if how == "nested":
             body.append(decl)
         else:
@@ -527,3 +527,50 @@ def basis_values(t, reduced=False):
 
 def texpr_of_leaf(t):
     return dict(t)
+
+
+# --------------------------------------------------------------------------------------
+# every message of a program with its scope path (needed to look size constants up)
+# --------------------------------------------------------------------------------------
+
+def message_nodes(t, acc=None, seen=None):
+    """All distinct message nodes of a resolved type tree."""
+    acc = acc if acc is not None else []
+    seen = seen if seen is not None else set()
+    k = t["k"]
+    if is_leaf(t):
+        return acc
+    if k == "alias":
+        return message_nodes(t["to"], acc, seen)
+    if k == "array":
+        return message_nodes(t["elem"], acc, seen)
+    if id(t) not in seen:
+        seen.add(id(t))
+        acc.append(t)
+        for f in t["fields"]:
+            message_nodes(f["t"], acc, seen)
+    return acc
+
+
+def decl_paths(prog):
+    """id(message decl) -> (file, [enclosing names..., own name])"""
+    out = {}
+
+    def walk(decls, file, path):
+        for d in decls:
+            if d["d"] == "message":
+                out[id(d)] = (file, path + [d["name"]])
+                walk(d["body"], file, path + [d["name"]])
+    for name, decls in prog["files"].items():
+        walk(decls, name, [])
+    return out
+
+
+def all_messages(prog):
+    paths = decl_paths(prog)
+    res = []
+    for m in message_nodes(prog["rtype"]):
+        d = m.get("_decl")
+        if d is not None and id(d) in paths:
+            res.append((paths[id(d)][0], paths[id(d)][1], m))
+    return res
